@@ -826,6 +826,12 @@ func idClass(proto, id string) string {
 func (s *Sim) adminResult(m *txMeta, ok bool, obs *TxObs) {
 	op := m.Op
 	md := s.Model
+	if op.Fail {
+		if ok {
+			panic(harnessErr("admin tx of op %d was built to fail but succeeded", op.ID))
+		}
+		return // rolled back as a whole: the model does not move
+	}
 	rightSigner := op.Signer == "" && op.SigStr == ""
 	predict := func(want bool, prop, why string) {
 		s.Stats.Count("rule:" + prop + ".msg-semantics")
